@@ -269,7 +269,9 @@ class UnitSystemManager(Singleton):
                 # an empty unit system.
                 units_mapping = {}
 
-        unit_system = self._default_unit_system_class(id, caption, units_mapping, read_only)
+        # every unit system owns its mapping: changing it must not change the caller's dict
+        # (or another system created from the same dict)
+        unit_system = self._default_unit_system_class(id, caption, dict(units_mapping), read_only)
         self._unit_systems[id] = unit_system
 
         if self._current is None:
